@@ -11,6 +11,20 @@ CLAIMED = {
          "Trusted: the 40-line reference partition in harness/src/props/c19.rs; proptest's generators. Exploration only: held on the histories generated, not a proof.",
          "DESIGN.md section 5, C19"),
 }
+def C(tech, what, trusted, ref):
+    return (tech,
+            what + " Failures shrink to a minimal case saved as a replay file; pinned reproductions are replayed first on every run.",
+            "Trusted: " + trusted + "; proptest's generators; rustc. Exploration only: the property held on every generated case, not a proof; sizes are bounded as stated in the evidence file's rule.",
+            ref)
+
+CLAIMED.update({
+ "C08": C("property-based testing: generated graphs + visitor control scripts; oracle = naive reachability / hop distances / predecessor fixpoint, an independent event-stream replayer and a reference recursion",
+          "Random multigraphs in 10 storage/adaptor encodings; Dfs/Bfs/DfsPostOrder/Topo outputs and depth_first_search event streams (under Continue/Prune/Break scripts) compared with definitional oracles.",
+          "the naive closure/fixpoint helpers in harness/src/agraph.rs and the stream replayer in props/c08.rs", "DESIGN.md section 5, C08"),
+ "C09": C("property-based testing: generated graphs; oracle = Warshall closure, mutual-reachability classes, forest edge count, propagation 2-colouring",
+          "Random directed/undirected multigraphs in 8 encodings; kosaraju_scc/tarjan_scc/TarjanScc, connected_components, has_path_connecting, is_cyclic_*, is_bipartite_undirected, toposort (fresh and reused DfsSpace) and condensation compared with brute-force definitions.",
+          "the Warshall/closure helpers in harness/src/agraph.rs", "DESIGN.md section 5, C09"),
+})
 PLANNED = {}
 
 def main():
